@@ -23,7 +23,7 @@ PROPERTIES = {
         assumptions=["bytes on the wire for multipart are httpx's", "interleavings inside httpx are outside this family"],
     ),
     "C06": dict(
-        modules=["contracts.c06_input_types"],
+        modules=["contracts.c06_input_types", "contracts.c18_names"],
         explanation="input type translator and default-literal translator against the image/coercion spec functions, by structural induction",
         assumptions=["acceptance/refusal of concrete values by the emitted annotations is pydantic's (assumed contract)"],
     ),
@@ -40,15 +40,18 @@ PROPERTIES = {
         assumptions=["pydantic runs BeforeValidator/PlainSerializer once per non-null occurrence under Optional/List (assumed)"],
     ),
     "C18": dict(
-        modules=["contracts.c18_names"],
+        modules=["contracts.c18_names", "contracts.c04_modules"],
         bounded=[_bounded.lazy("contracts.c18_names", "bounded_names")],
         explanation="process_name for all strings in SMT string theory; str_to_snake_case by exhaustive bounded enumeration",
         assumptions=["A_snake: assumed contract on str_to_snake_case (regex lookahead is outside the solvers' fragment), bounded stand-in only"],
     ),
     "C19": dict(
         modules=["contracts.c19_sources", "contracts.c06_input_types"],
-        explanation="introspection decision chain (complete, loop-free), header resolution; defaults through the C06 contracts",
-        assumptions=["equality of whole generated packages across sources is outside this family (see DESIGN 8)"],
+        bounded=[_bounded.lazy("contracts.e2e_sources", "bounded_sources")],
+        explanation="introspection decision chain (complete, loop-free), header resolution, file discovery (walk_graphql_files) "
+                    "with a trace invariant; defaults through the C06 contracts; equality of the clients generated from the three "
+                    "sources by the end-to-end stand-in",
+        assumptions=["equality of whole generated packages across sources is decided only on the stand-in's corpus (bounded)"],
     ),
     "C17": dict(
         modules=["contracts.c17_settings"],
